@@ -87,9 +87,9 @@ func c03Adaptor(r *verifh.Rand) *pxAdaptor {
 
 // c03ReqLine adds the RequestAdaptor's request-line / header sections (mostly valid, colliding alphabets).
 func c03ReqLine(r *verifh.Rand, a *pxAdaptor, clientMethod string) {
-	// (a HEAD request whose method is adapted makes net/http write the backend's body to a client that
-	// expects none - SetMethod edits the server's own *http.Request; recorded in notes/C03.md, outside the statement)
-	if clientMethod != "HEAD" && r.Bool(1, 3) {
+	// (a HEAD request whose method is adapted makes net/http write the backend's body to a client that expects
+	// none - SetMethod edits the server's own *http.Request: open known finding C03-head-method-adapted, generated rarely)
+	if (clientMethod != "HEAD" && r.Bool(1, 3)) || (clientMethod == "HEAD" && r.Bool(1, 6)) {
 		a.Method = r.Pick("GET", "POST", "PUT", "DELETE")
 	}
 	if r.Bool(1, 3) {
